@@ -3,6 +3,7 @@ SPEC = {
     'theorems': ['EV.Index.C02_spec_ordered', 'EV.Index.C02_advance', 'EV.Index.C02_flush', 'EV.Index.C02_backup',
                  'EV.Index.C02_history', 'EV.Index.C02_init',
                  'EV.Index.C01run_refinement', 'EV.Index.C01run_observables', 'EV.Index.C01run_resolve', 'EV.Index.C01run_file_readers'],
+    'claims': {'exclude_tags': ['after_backup', 'after_restart', 'window'], 'violation_tags': ['history', 'files']},
     'suites': ['index'],
     'design_ref': 'DESIGN.md §6 C02',
     'assumptions': [
